@@ -246,6 +246,8 @@ def canon_exc(e: BaseException) -> str:
         return "IncompleteReadError"
     if isinstance(e, ConnectionError):
         return "ConnectionError"
+    if type(e).__name__ == "AuthError":
+        return "Other"
     return "Other:" + type(e).__name__
 
 
